@@ -13,7 +13,7 @@ import ast
 from . import e2_formula as F
 from . import ode_spaces as O
 from .core import AnchorError, Unsupported
-from .e1_srcmodel import dotted, walk_no_nested, parent, ancestors, utext
+from .e1_srcmodel import dotted, ancestors
 from .e2_eval import is_unknown, need
 from .e3_spaces import Arr, Idx
 from .sem import unfn
@@ -29,7 +29,9 @@ FORCE = F.sym("force")
 
 # ------------------------------------------------------------------------------------------------ configurations
 _BASE = {"self.nonrfsz": True, "self.cdforces": False, "self.rbsize": True, "self.elsize": True, "self.ksize": True, "self.rfsize": True,
-         "self.pre_eig": False, "incrb": True, '"d" in incrb': True, '"v" in incrb': True, '"a" in incrb': True, "rf_disp_only": False}
+         "self.pre_eig": False, "self.slices": False, "self.n": True, "len(freq)": True, "freq.size": True,
+         "len(self.rb)": True, "self.rb.size": True, "len(self.rf)": True, "self.rf.size": True, "len(self.el)": True, "self.el.size": True,
+         "len(self.kdof)": True, "self.kdof.size": True, "len(self.nonrf)": True, "self.nonrf.size": True, "incrb": True, '"d" in incrb': True, '"v" in incrb': True, '"a" in incrb': True, "rf_disp_only": False}
 
 
 def _identity_model(ev, node):
@@ -41,11 +43,11 @@ def _entry(ctx, solver):
     if solver == "SolveUnc":
         fn = ctx.src.func(O.UNC, "SolveUnc.fsolve")
         opts = S.Opts(classes=[(O.UNC, "SolveUnc"), (O.BASE, "_BaseODE")], exclude={"self._addconj", "self._delconj", "self._solution_freq"},
-                      erase_loop_index=True, models={"_process_incrb": _identity_model})
+                      erase_loop_index=True, models={"_process_incrb": _identity_model}, erase_T=False)
     else:
         fn = ctx.src.func(O.FD, "FreqDirect.fsolve")
         opts = S.Opts(classes=[(O.FD, "FreqDirect"), (O.BASE, "_BaseODE")], exclude={"self._solution_freq"},
-                      erase_loop_index=True, models={"_process_incrb": _identity_model})
+                      erase_loop_index=True, models={"_process_incrb": _identity_model}, erase_T=False)
     return fn, opts
 
 
@@ -77,19 +79,38 @@ class Run:
             table.update(extra)
         self.fn, opts = _entry(ctx, solver)
         self.trace, self.ev = S.run_entry(ctx, self.fn, table, opts, self.label)
+        self.ids = _result_arrays(ctx, self)
         types = dict(attrs)
-        types.update({"force": Arr("N", None), "d": Arr("N", None, "d"), "v": Arr("N", None, "v"), "a": Arr("N", None, "a")})
+        types["force"] = Arr("N", None)
+        for x in "dva":
+            types[self.ids[x]] = Arr("N", None, x)
         self.typer = ValueTyper(types, self.trace, self.label)
         self.coupled = over.get("self.unc") is False
 
+    def sym(self, letter):
+        return F.sym(self.ids[letter])
+
+    def cells_of(self, letter):
+        return self.trace.cells_of(self.ids[letter])
+
     def problems(self):
-        """what makes the trace unusable: tests that could not be decided, the result arrays not found"""
+        """what makes the trace unusable: tests that could not be decided, constructs that are not lowered, the result arrays not found"""
         out = []
         for t, f in self.trace.undecided:
-            out.append((t, f"{self.label}: the test `{ast.unparse(t)}` in {f} cannot be decided in this configuration"))
+            if isinstance(t, ast.stmt):
+                out.append((t, f"{self.label}: a `{type(t).__name__.lower()}` statement in {f} is not lowered"))
+            else:
+                out.append((t, f"{self.label}: the test `{ast.unparse(t)}` in {f} cannot be decided in this configuration"))
         for x in "dva":
-            if x not in self.trace.idents:
+            if self.ids[x] not in self.trace.idents:
                 out.append((self.fn, f"{self.label}: no result array `{x}` reaches the solver"))
+            for c in self.cells_of(x):
+                if is_unknown(c[1]) or is_unknown(c[2]) or isinstance(c[2], tuple):
+                    out.append((c[3], f"{self.label}: a store into `{x}` cannot be evaluated ({c[1] if is_unknown(c[1]) else c[2]!r})"))
+                elif self.part(c[1]) is None and not isinstance(self.typer.ty(c[1]), Idx):
+                    # (an index vector that is relative to another space than the full set is a typing violation: R4 reports it, the cell is
+                    #  no store on a partition of the full set for the other rules)
+                    out.append((c[3], f"{self.label}: the rows `{c[1]!r}` of `{x}` that are stored into are not a partition the rule knows"))
         return out
 
     def part(self, ix):
@@ -110,11 +131,63 @@ class Run:
 
     def cells(self, ident, parts=None):
         out = []
-        for c in self.trace.cells_of(ident):
+        for c in self.cells_of(ident):
             p = self.part(c[1])
             if parts is None or p in parts:
                 out.append((p,) + tuple(c))
         return out      # (partition, ident, index, value, node, clock)
+
+
+def _result_arrays(ctx, run):
+    """identities of the arrays that become the fields d, v, a of the returned solution: read from the call of _solution_freq that ends
+    fsolve and from the fields that function fills (the public names sol.d / sol.v / sol.a are the anchor, not the names of locals)"""
+    from .sem import split_call, place
+    ids = {x: x for x in "dva"}
+    try:
+        rets = run.trace.returns.get(run.fn.name) or []
+        sc = split_call(rets[-1]) if rets and not is_unknown(rets[-1]) and not isinstance(rets[-1], tuple) else None
+        if sc is None or not sc[0].endswith("_solution_freq"):
+            return ids
+        sf = None
+        for rel, cls in ((O.UNC if run.solver == "SolveUnc" else O.FD, run.solver), (O.BASE, "_BaseODE")):
+            sf = sf or ctx.src.mod(rel).funcs.get(f"{cls}._solution_freq")
+        if sf is None:
+            return ids
+        params = [a.arg for a in sf.args.args if a.arg != "self"]
+        got = place(sc[1], sc[2], params)
+        fields = _solution_fields(ctx, sf, False)
+        for x in "dva":
+            pn = S.sym_name(fields.get(x)) if fields else None
+            nm = S.sym_name(got.get(pn)) if pn in got else None
+            if nm is not None and nm in run.trace.idents:
+                ids[x] = nm
+    except Unsupported:
+        pass
+    return ids
+
+
+def _solution_fields(ctx, sf, pre):
+    """fields of the namespace returned by _solution_freq, as values over its parameters (None when it cannot be read)"""
+    from .sem import split_call
+    cache = ctx.__dict__.setdefault("_c02_fields", {})
+    k = (id(sf), pre)
+    if k in cache:
+        return cache[k][0] if cache[k] else None
+    cache[k] = None
+    tr, ev = S.run_entry(ctx, sf, {"self.pre_eig": pre}, S.Opts(erase_T=False), "_solution_freq")
+    if tr.undecided or not ev.returns:
+        return None
+    val, node = ev.returns[-1]
+    fields = {}
+    sc = split_call(val) if val is not None and not is_unknown(val) and not isinstance(val, tuple) else None
+    if sc is not None:
+        fields.update(sc[2])
+    if isinstance(node.value, ast.Name):
+        for x in ("d", "v", "a", "f"):
+            if f"{node.value.id}.{x}" in ev.env:
+                fields[x] = ev.env[f"{node.value.id}.{x}"]
+    cache[k] = (fields, node)
+    return cache[k][0]
 
 
 def _run(ctx, famkey, m_none, extra=None, tag=""):
@@ -221,41 +294,79 @@ def r1_dynamic_stiffness(ctx):
 # ------------------------------------------------------------------------------------------------ R2
 def _d_candidates(run, ix, before):
     """what `d` on the rows `ix` can be written as: the read-back d[ix], or the value last stored there"""
-    d_id = F.sym("d")
+    d_id = run.sym("d")
     out = [d_id if ix is None else F.fn("idx", d_id, ix)]
-    for c in run.trace.cells_of("d"):
+    for c in run.cells_of("d"):
         if c[4] < before and ((c[1] is None and ix is None) or (c[1] is not None and ix is not None and not is_unknown(c[1]) and _eq(c[1], ix))):
             if not is_unknown(c[2]) and not isinstance(c[2], tuple):
                 out.append(c[2])
     return out
 
 
+def _symbols(v):
+    out = set()
+
+    def f(kind, name, args):
+        if kind == "s":
+            out.add(name)
+        return NotImplemented
+    S.rewrite(v, f)
+    return out
+
+
+def _unwrap_axis(ix):
+    """ax<k>(M) -> (k, M);  M -> (0, M)"""
+    u = unfn(ix) if ix is not None and not is_unknown(ix) else None
+    if u is not None and u[0].startswith("ax") and u[0][2:].isdigit() and len(u[1]) == 1 and not isinstance(u[1][0], str):
+        return int(u[0][2:]), u[1][0]
+    return 0, ix
+
+
+def _forward(run, val, before, depth=0):
+    """the value with every read-back d[X] / v[X] / a[X] replaced by what was last stored there before the clock `before`"""
+    if depth > 6:
+        return val
+
+    def f(kind, name, args):
+        if kind == "fn" and name == "idx" and len(args) == 2 and not isinstance(args[0], str) and not isinstance(args[1], str):
+            nm = S.sym_name(args[0])
+            if nm in run.ids.values():
+                hit = None
+                for c in run.trace.cells_of(nm):
+                    if c[4] < before and c[1] is not None and not is_unknown(c[1]) and _eq(c[1], args[1]) and not is_unknown(c[2]) and not isinstance(c[2], tuple):
+                        hit = c
+                if hit is not None:
+                    return _forward(run, hit[2], hit[4], depth + 1)
+        return NotImplemented
+    return S.rewrite(val, f)
+
+
 def _freq_mask(ctx, run, M, node, which):
-    """the frequency mask of a rigid-body write must be `W != 0`: one obligation"""
+    """the frequency selection of a rigid-body write must be `W != 0`: one obligation"""
     u = unfn(M) if M is not None and not is_unknown(M) else None
-    op, x = None, None
+    op, x, c0 = None, None, None
     if u is not None and u[0] in ("invert", "not") and not isinstance(u[1][0], str):
         u2 = unfn(u[1][0])
         if u2 is not None and u2[0] == "cmp:Eq":
             u = ("cmp:NotEq", u2[1])
-    if u is not None and u[0].startswith("cmp:") and len(u[1]) == 2:
+    if u is not None and u[0].startswith("cmp:") and len(u[1]) == 2 and not any(isinstance(z, str) for z in u[1]):
         a, c = u[1]
-        if c.is_const() and c.const_value() == 0:
-            op, x = u[0][4:], a
-        elif a.is_const() and a.const_value() == 0:
-            op, x = {"Gt": "Lt", "Lt": "Gt", "GtE": "LtE", "LtE": "GtE"}.get(u[0][4:], u[0][4:]), c
+        if c.is_const():
+            op, x, c0 = u[0][4:], a, c.const_value()
+        elif a.is_const():
+            op, x, c0 = {"Gt": "Lt", "Lt": "Gt", "GtE": "LtE", "LtE": "GtE"}.get(u[0][4:], u[0][4:]), c, a.const_value()
     if op is None:
         ctx.error(f"{run.label}: the rigid-body {which} is written under a frequency selection the rule cannot read", node, repr(M))
         return
     try:
         xe = S.erase_idx(x)
-        prop = not xe.is_zero() and any(not (xe / (FREQ ** n)).depends_on("freq") for n in (1, 2))
+        prop = not xe.is_zero() and any((xe / (FREQ ** n)).diff("freq").is_zero() for n in (1, 2))
     except Unsupported:
         prop = False
     if not prop:
-        ctx.error(f"{run.label}: the rigid-body {which} is written under a selection that is not a comparison of the frequency with zero", node, repr(M))
+        ctx.error(f"{run.label}: the rigid-body {which} is written under a selection that is not a comparison of the frequency with a constant", node, repr(M))
         return
-    ok = op == "NotEq"
+    ok = op == "NotEq" and c0 == 0
     _check_once(ctx, ok, f"{run.label}: the rigid-body {which} is filled at every frequency except 0 Hz (selection `W != 0`)", node,
                 None if ok else {"selection": repr(M), "consequence": "frequencies that are excluded without being zero keep a zero response although a = F/m is returned there"},
                 key=f"C02-R2|{run.family}|{run.m_none}|rb {which} frequency selection", tag="mask")
@@ -277,11 +388,11 @@ def r2_derivative_relations(ctx):
                 continue
             for which, factor, txt in (("v", I * W, "v = i W d"), ("a", -W * W, "a = -W^2 d")):
                 for p, ix in dparts:
-                    dclk = max(d[4] for d in tr.cells_of("d") if d[1] is not None and not is_unknown(d[1]) and _eq(d[1], ix))
-                    cs = [c for c in tr.cells_of(which) if c[1] is not None and not is_unknown(c[1]) and _eq(c[1], ix)]
+                    dclk = max(d[4] for d in run.cells_of("d") if d[1] is not None and not is_unknown(d[1]) and _eq(d[1], ix))
+                    cs = [c for c in run.cells_of(which) if c[1] is not None and not is_unknown(c[1]) and _eq(c[1], ix)]
                     if not cs:
                         # a store on the whole array after the displacement of these rows is known covers them
-                        cs = [c for c in tr.cells_of(which) if c[1] is None and c[4] > dclk]
+                        cs = [c for c in run.cells_of(which) if c[1] is None and c[4] > dclk]
                     if not cs:
                         ctx.fail(f"{run.label}: `{which}` is derived from `d` on the rows `{S.sym_name(ix) or repr(ix)}`", run.fn,
                                  f"d is stored on these rows but no store of {which} on the same rows is reached (it stays zero)",
@@ -293,6 +404,13 @@ def r2_derivative_relations(ctx):
                         ctx.error(f"{run.label}: {txt}", c[3], repr(val))
                         continue
                     ok = any(_eq(val, factor * D) for D in _d_candidates(run, c[1], c[4]))
+                    if not ok:
+                        # written through another stored response (a = i W v): compare with every read-back resolved
+                        try:
+                            d0 = run.sym("d") if c[1] is None else F.fn("idx", run.sym("d"), c[1])
+                            ok = _eq(_forward(run, val, c[4]), factor * _forward(run, d0, c[4]))
+                        except Unsupported:
+                            ok = False
                     _check_once(ctx, ok, f"{run.label}: {txt} on the rows `{S.sym_name(ix) or repr(ix)}` ({'residual-flexibility' if p == 'RF' else 'dynamic'} equations), "
                                     "from the displacement stored on the same rows", c[3], None if ok else {which: repr(val)}, tag=which)
             if run.solver != "SolveUnc":
@@ -318,23 +436,86 @@ def r2_derivative_relations(ctx):
                     continue
                 _, _, ix, val, node, clk = cs[-1]
                 B = S.sym_name(val) if not is_unknown(val) and not isinstance(val, tuple) else None
-                if B is None or B not in tr.idents:
-                    ctx.error(f"{run.label}: the rigid-body {which} is not assembled in an array of its own", node, repr(val))
+                ui = unfn(ix) if ix is not None and not is_unknown(ix) else None
+                if B is not None and B in tr.idents:
+                    fills = [c for c in tr.cells_of(B) if c[4] < clk]
+                elif ui is not None and ui[0] == "tuple" and len(ui[1]) == 2 and not any(isinstance(z, str) for z in ui[1]) and not is_unknown(val) \
+                        and not isinstance(val, tuple):
+                    # written in place: {which}[rb, selection] = ...   (the pairing of the two selectors is the typing rule's business)
+                    B = run.ids[which]
+                    fills = [(B, F.fn("ax1", ui[1][1]), val, node, clk)]
+                else:
+                    ctx.error(f"{run.label}: the rigid-body {which} is neither assembled in an array of its own nor written under a frequency selection", node, repr(val))
                     continue
-                fills = [c for c in tr.cells_of(B) if c[4] < clk]
+                if not fills:
+                    _check_once(ctx, False, f"{run.label}: rigid-body {txt} (from the acceleration stored on the same rows)", node,
+                                f"the array stored into {which}[rb] is never filled: the rigid-body {which} stays zero at every frequency", tag=("rb", which))
+                    continue
                 if len(fills) != 1 or is_unknown(fills[0][2]) or isinstance(fills[0][2], tuple) or fills[0][1] is None or is_unknown(fills[0][1]):
                     ctx.error(f"{run.label}: the rigid-body {which} array is filled in a way the rule cannot read", node, [repr(c[2]) for c in fills])
                     continue
                 f0 = fills[0]
+                axis, M = _unwrap_axis(f0[1])
                 try:
                     ok = S.erase_idx(f0[2]).equals(want)
                 except Unsupported as e:
                     ctx.error(f"{run.label}: rigid-body {which}", f0[3], str(e))
                     continue
-                ctx.check(ok, f"{run.label}: rigid-body {txt} (from the acceleration stored on the same rows)", f0[3], None if ok else {which: repr(f0[2]), "a": repr(A)})
-                _freq_mask(ctx, run, f0[1], f0[3], which)
+                _check_once(ctx, ok, f"{run.label}: rigid-body {txt} (from the acceleration stored on the same rows)", f0[3], None if ok else {which: repr(f0[2]), "a": repr(A)},
+                            tag=("rb", which))
+                _freq_mask(ctx, run, M, f0[3], which)
+                # the same selection on both sides, along the frequency axis of each operand
+                bad = []
+                for base, ix in S.atoms_of(f0[2], "idx"):
+                    ax2, M2 = _unwrap_axis(ix)
+                    if isinstance(M2, str) or M2 is None or not _eq(M2, M):
+                        continue
+                    try:
+                        freq_only = _symbols(S.erase_idx(base)) <= {"freq", "pi", "I"}
+                    except Unsupported:
+                        freq_only = False
+                    if (ax2 == 0) != freq_only:
+                        bad.append(f"`{base!r}` is restricted along axis {ax2}")
+                ok = axis >= 1 and not bad
+                _check_once(ctx, ok, f"{run.label}: the rigid-body {which} write is restricted to the non-zero frequencies on both sides (columns of the response, "
+                                     "entries of the frequency vector)", f0[3], None if ok else bad or f"target axis {axis}", tag=("rbaxis", which))
                 ok = _zero(tr.init.get(B))
                 ctx.check(ok, f"{run.label}: the rigid-body {which} starts as zeros, so the 0 Hz entries stay zero", node, None if ok else repr(tr.init.get(B)))
+    _returned_solution(ctx)
+
+
+def _returned_solution(ctx):
+    """what fsolve hands back: the namespace built by _solution_freq from the arrays handed to it (transformed by phi under pre_eig).  Which
+    arrays of the evaluated path are `the` d, v, a is read from this chain (`_result_arrays`); the derivative relations above are then
+    statements about the fields of the returned solution."""
+    sf = ctx.src.func(O.BASE, "_BaseODE._solution_freq")
+    params = [a.arg for a in sf.args.args if a.arg != "self"]
+    for pre in (False, True):
+        fields = _solution_fields(ctx, sf, pre)
+        node = ctx.__dict__["_c02_fields"].get((id(sf), pre))
+        node = node[1] if node else sf
+        if not fields or not all(x in fields for x in ("d", "v", "a", "f")) or len(params) != 4 or any(is_unknown(v) or isinstance(v, tuple) for v in fields.values()):
+            ctx.error(f"_solution_freq (pre_eig {pre}): fields d, v, a, f of the returned namespace", node, repr(fields))
+            continue
+        phi = F.sym("self.phi")
+        # each field is (the transform of) a distinct parameter, the frequency field is the last parameter
+        srcs = []
+        for x in "dva":
+            v = fields[x]
+            hit = [p_ for p_ in params if _eq(v, (phi * F.sym(p_)) if pre else F.sym(p_))]
+            srcs.append(hit[0] if len(hit) == 1 else None)
+        ok = None not in srcs and len(set(srcs)) == 3 and srcs == params[:3] and _eq(fields["f"], F.sym(params[3]))
+        ctx.check(ok, f"_solution_freq ({'pre_eig: each response is transformed back by phi' if pre else 'no pre_eig'}): the fields d, v, a, f of the solution "
+                      "are its first, second, third and fourth argument", node, None if ok else {k: repr(v) for k, v in fields.items()})
+    for famkey, solver in (("su-real", "SolveUnc"), ("fd-unc", "FreqDirect")):
+        run = _run(ctx, famkey, False)
+        if run.problems():
+            continue
+        ids = run.ids
+        inits = [run.trace.init.get(ids[x]) for x in "dva"]
+        ok = len(set(ids.values())) == 3 and all(_zero(v) for v in inits)
+        ctx.check(ok, f"{solver}.fsolve: the fields d, v, a of the returned solution are three distinct arrays that start as zeros (rows no rule above fills stay zero)",
+                  run.fn, None if ok else {"arrays": ids, "created from": [repr(v) for v in inits]})
 
 
 # ------------------------------------------------------------------------------------------------ R3
@@ -356,13 +537,14 @@ def _rb_state(run, letter):
     if last is None:
         return "untouched", None
     p, val, node = last
+    if is_unknown(val):
+        return "unknown", node
     if _zero(val):
         return "zero", node
     return "filled", node
 
 
 def r3_option_gating(ctx):
-    fams = {f[0]: f for f in _families()}
     for famkey in ("su-real", "su-cplx", "su-coup", "fd-unc", "fd-coup"):
         allin = _run(ctx, famkey, False)
         if not _usable(ctx, allin):
@@ -438,31 +620,50 @@ def r4_partition_typing(ctx):
 DRM = F.sym("<drm>")           # the generic entry of drmlist
 
 
-class _PsdConfig(S.Config):
-    """solvepsd: which of the four recovery matrices of the generic drmlist entry are present (not None)"""
+def _drm_truth(v, present):
+    """`<k-th matrix of the generic drmlist entry> is (not) None`, by the set of positions that are present"""
+    u = unfn(v) if v is not None and not is_unknown(v) and not isinstance(v, tuple) else None
+    if u is not None and u[0] in ("cmp:Is", "cmp:IsNot", "cmp:Eq", "cmp:NotEq") and len(u[1]) == 2 and not any(isinstance(a, str) for a in u[1]):
+        for x, y in (u[1], u[1][::-1]):
+            if S.sym_name(y) == "None":
+                ux = unfn(x)
+                if ux is not None and ux[0] == "idx" and _eq(ux[1][0], DRM) and ux[1][1].is_const():
+                    there = int(ux[1][1].const_value()) in present
+                    return (not there) if u[0] in ("cmp:Is", "cmp:Eq") else there
+    return None
 
-    def __init__(self, table, present):
-        super().__init__(table)
+
+class _PsdConfig(S.Config):
+    """solvepsd for generic data: which of the four recovery matrices of the generic drmlist entry are present; uncertainty factors of 1"""
+
+    def __init__(self, present):
+        super().__init__({"rbduf != 1.0": False, "elduf != 1.0": False})
         self.present = set(present)
 
     def truth(self, v):
+        r = _drm_truth(v, self.present)
+        if r is not None:
+            return r
         u = unfn(v) if v is not None and not is_unknown(v) and not isinstance(v, tuple) else None
-        if u is not None and u[0] in ("cmp:Is", "cmp:IsNot", "cmp:Eq", "cmp:NotEq") and len(u[1]) == 2 and not any(isinstance(a, str) for a in u[1]):
-            for x, y in (u[1], u[1][::-1]):
-                if S.sym_name(y) == "None":
-                    ux = unfn(x)
-                    if ux is not None and ux[0] == "idx" and _eq(ux[1][0], DRM) and ux[1][1].is_const():
-                        there = int(ux[1][1].const_value()) in self.present
-                        return (not there) if u[0] in ("cmp:Is", "cmp:Eq") else there
         if u is not None and u[0] in ("call:.any", "call:np.any") and len(u[1]) == 1:
             return True          # the generic force has a PSD and a shape that do not vanish identically
         return super().truth(v)
 
 
+class _PsdFork(S._ForkConfig):
+    """all four matrices present; every other test (uncertainty factors, vanishing inputs, ...) is taken both ways"""
+
+    def truth(self, v):
+        r = _drm_truth(v, {0, 1, 2, 3})
+        if r is not None:
+            return r
+        return super().truth(v)
+
+
 def _psd_opts(psd_id=None, pp=None):
     """the generic entry of drmlist is DRM however it is reached (loop target, enumerate, drmlist[j]); for the area formula the generic
-    entry of the psd list is the symbolic 4-point row `pp`"""
-    def elem(itv):
+    entry of the psd list is the symbolic 4-point row `pp`.  Loads of the psd list are noted with their index."""
+    def elem(itv, counter=None):
         n = S.sym_name(itv)
         if n == "drmlist":
             return DRM
@@ -475,6 +676,7 @@ def _psd_opts(psd_id=None, pp=None):
         if ix is not None and n == "drmlist":
             return DRM
         if ix is not None and psd_id is not None and n == psd_id:
+            ev.trace.notes.append(("psd-load", ix, ev.trace.tick()))
             return pp
         return NotImplemented
 
@@ -485,110 +687,143 @@ def _psd_opts(psd_id=None, pp=None):
     return S.Opts(models={"np.atleast_2d": atleast, "np.atleast_1d": atleast}, elem_hook=elem, load_hook=load)
 
 
-_PSD_TABLE = {"rbduf != 1.0": False, "elduf != 1.0": False}
-
-
 def _psd_run(ctx, fn, present, env=None, opts=None):
-    cfg = _PsdConfig(_PSD_TABLE, present)
-    ev = S.PathEval(fn, ctx, cfg, opts or _psd_opts(), env=env)
+    ev = S.PathEval(fn, ctx, _PsdConfig(present), opts or _psd_opts(), env=env)
     ev.run(fn.body)
     return ev.trace
 
 
+def _psd_paths(ctx, fn):
+    cache = ctx.__dict__.setdefault("_c02_psd_paths", {})
+    if id(fn) not in cache:
+        cache[id(fn)] = list(S.enumerate_paths(ctx, fn, {}, _psd_opts(), cfg_cls=_PsdFork))
+    return cache[id(fn)]
+
+
+def _psd_ids(trace, fn):
+    """identities of the two returned lists (rms, psd)"""
+    rets = trace.returns.get(fn.name) or []
+    if not rets or not isinstance(rets[-1], tuple) or len(rets[-1]) != 2 or any(S.sym_name(x) not in trace.idents for x in rets[-1]):
+        return None, None
+    return S.sym_name(rets[-1][0]), S.sym_name(rets[-1][1])
+
+
+def _psd_increment(trace, pid, fn):
+    """the increment of psd[j] in the generic (force, entry) iteration: (increment, index, node) or (None, None, node)"""
+    cs = trace.cells_of(pid)
+    if len(cs) != 1 or is_unknown(cs[0][2]) or isinstance(cs[0][2], tuple) or cs[0][1] is None or is_unknown(cs[0][1]):
+        return None, None, (cs[0][3] if cs else fn)
+    c = cs[0]
+    return need(c[2]) - F.fn("idx", F.sym(pid), c[1]), c[1], c[3]
+
+
 def r5_solvepsd(ctx):
     fn = ctx.src.func(UTIL, "solvepsd")
-    tr = _psd_run(ctx, fn, (0, 1, 2, 3))
-    for t, f in tr.undecided:
-        ctx.error(f"solvepsd: the test `{ast.unparse(t)}` in {f} cannot be decided", t)
-    if tr.undecided:
+    paths = _psd_paths(ctx, fn)
+    rms_id, psd_id = _psd_ids(paths[0][1], fn)
+    if psd_id is None:
+        ctx.error("solvepsd: returns (rms, psd), two lists filled per recovery entry", fn)
         return
-    rets = tr.returns.get(fn.name) or []
-    if not rets or not isinstance(rets[-1], tuple) or len(rets[-1]) != 2 or any(S.sym_name(x) not in tr.idents for x in rets[-1]):
-        ctx.error("solvepsd: returns (rms, psd), two lists filled per recovery entry", fn, repr(rets[-1]) if rets else None)
+    acc_paths = [(dec, tr) for dec, tr in paths if _psd_ids(tr, fn)[1] and tr.cells_of(_psd_ids(tr, fn)[1])]
+    if not acc_paths:
+        ctx.error("solvepsd: no path reaches an accumulation into the psd list", fn)
         return
-    rms_id, psd_id = (S.sym_name(x) for x in rets[-1])
-    # ---- the unit frequency response of one force
-    calls = [c for c in tr.calls if c[0].endswith(".fsolve") or c[0] == "fsolve"]
-    if len(calls) != 1 or len(calls[0][1]) < 2:
-        ctx.error("solvepsd: one call of the solver's fsolve per force", fn, [c[0] for c in calls])
-        return
-    gen, fq = calls[0][1][0], calls[0][1][1]
-    fi = None
-    for s in sorted(tr.loop_syms):
-        if _eq(gen, F.fn("idx", F.sym("t_frc"), F.sym(s))):
-            fi = F.sym(s)
-    ok = fi is not None and _eq(fq, FREQ)
-    ctx.check(ok, "solvepsd: one unit-amplitude FRF per force: fsolve(t_frc[:, i] at every frequency, freq)", calls[0][3], None if ok else {"force": repr(gen), "freq": repr(fq)})
-    if fi is None:
-        return
-    sol = None
-    for c in tr.cells_of(psd_id):
-        for args in S.atoms_of(c[2], "attr:a") + S.atoms_of(c[2], "attr:v") + S.atoms_of(c[2], "attr:d"):
-            sol = args[0]
-    if sol is None:
-        ctx.error("solvepsd: the recovered response does not use the solution of the unit force", fn)
-        return
-    us = unfn(sol)
-    ok = us is not None and us[0].startswith("call:") and us[0].endswith("fsolve")
-    ctx.check(ok, "solvepsd: the response recovered is the solution returned for that unit force", calls[0][3], None if ok else repr(sol), nontrivial=False)
-    A, V, D = (F.fn("attr:" + x, sol) for x in "avd")
-    terms = [F.fn("idx", DRM, F.const(0)) * A, F.fn("idx", DRM, F.const(1)) * V, F.fn("idx", DRM, F.const(2)) * D,
-             F.fn("idx", F.fn("idx", DRM, F.const(3)), fi)]
     names = ("drma @ sol.a", "drmv @ sol.v", "drmd @ sol.d", "drmf[:, i]")
+    state = {}
 
-    def accumulated(trace, pid):
-        """the increment of psd[j] in one (force, entry) iteration"""
-        cs = trace.cells_of(pid)
-        if len(cs) != 1 or is_unknown(cs[0][2]) or isinstance(cs[0][2], tuple) or cs[0][1] is None or is_unknown(cs[0][1]):
-            return None, (cs[0][3] if cs else fn)
-        c = cs[0]
-        return need(c[2]) - F.fn("idx", F.sym(pid), c[1]), c[3]
+    def expected(trace, present):
+        """(force counter, fsolve call node, expected increment) for one evaluated path; raises Unsupported with the reason"""
+        calls = [c for c in trace.calls if c[0].endswith(".fsolve") or c[0] == "fsolve"]
+        if len(calls) != 1 or len(calls[0][1]) < 2:
+            raise Unsupported("one call of the solver's fsolve per force")
+        gen, fq = calls[0][1][0], calls[0][1][1]
+        fi = None
+        for s_ in sorted(trace.loop_syms):
+            if _eq(gen, F.fn("idx", F.sym("t_frc"), F.fn("ax1", F.sym(s_)))):
+                fi = F.sym(s_)
+        sol = trace.call_values.get(id(calls[0][3]))
+        if sol is None or is_unknown(sol) or isinstance(sol, tuple):
+            raise Unsupported("value of the fsolve call")
+        state["unit"] = (fi is not None and _eq(fq, FREQ), calls[0][3], {"force": repr(gen), "freq": repr(fq)})
+        if fi is None:
+            raise Unsupported("unit force")
+        A, V, D = (F.fn("attr:" + x, sol) for x in "avd")
+        terms = [F.fn("idx", DRM, F.const(0)) * A, F.fn("idx", DRM, F.const(1)) * V, F.fn("idx", DRM, F.const(2)) * D,
+                 F.fn("idx", F.fn("idx", DRM, F.const(3)), F.fn("ax1", fi))]
+        frf = F.const(0)
+        for j in present:
+            frf = frf + terms[j]
+        return fi, calls[0][3], F.fn("idx", F.sym("forcepsd"), fi) * F.fn("abs", frf) ** 2
 
-    inc, node = accumulated(tr, psd_id)
-    if inc is None:
-        ctx.error("solvepsd: one accumulation into psd[j] per (force, recovery entry)", node)
+    bad = None
+    nodes = None
+    for dec, tr in acc_paths:
+        pid = _psd_ids(tr, fn)[1]
+        inc, ix, node = _psd_increment(tr, pid, fn)
+        try:
+            fi, cnode, want = expected(tr, (0, 1, 2, 3))
+        except Unsupported as e:
+            if "unit" in state and not state["unit"][0]:
+                break
+            ctx.error(f"solvepsd: {e}", node)
+            return
+        if inc is None:
+            ctx.error("solvepsd: one accumulation into psd[j] per (force, recovery entry)", node)
+            return
+        nodes = (node, ix, fi)
+        if not _eq(inc, want) and bad is None:
+            bad = {"increment": repr(inc), "want": repr(want), "path": [f"{v!r} is {b}" for v, b in dec]}
+    ok, unode, detail = state.get("unit", (False, fn, None))
+    ctx.check(ok, "solvepsd: one unit-amplitude FRF per force: fsolve(t_frc[:, i] at every frequency, freq)", unode, None if ok else detail)
+    if not ok or nodes is None:
         return
-    frf = sum(terms[1:], terms[0])
-    want = F.fn("idx", F.sym("forcepsd"), fi) * F.fn("abs", frf) ** 2
-    ok = _eq(inc, want)
-    ctx.check(ok, "solvepsd: psd[j] accumulates forcepsd[i] * |drma a + drmv v + drmd d + drmf[:, i]|^2 over the forces (tuple position matches solution attribute, "
-                  "the direct term and the PSD belong to the same force)", node, None if ok else {"increment": repr(inc), "want": repr(want)})
+    node, ix, fi = nodes
+    ctx.check(bad is None, f"solvepsd: psd[j] accumulates forcepsd[i] * |drma a + drmv v + drmd d + drmf[:, i]|^2 over the forces on each of the {len(acc_paths)} "
+                           "evaluated paths (tuple position matches solution attribute, the direct term and the PSD belong to the same force)", node, bad)
+    ok = not (_symbols(ix) & _symbols(fi))
+    ctx.check(ok, "solvepsd: the list entry accumulated into is selected by the recovery entry, not by the force", node, None if ok else repr(ix))
     # ---- a recovery matrix that is None drops exactly its own term
     for k in range(4):
         present = tuple(j for j in range(4) if j != k)
         t2 = _psd_run(ctx, fn, present)
-        r2 = t2.returns.get(fn.name) or []
-        pid = S.sym_name(r2[-1][1]) if r2 and isinstance(r2[-1], tuple) and len(r2[-1]) == 2 else None
-        inc2, node2 = accumulated(t2, pid) if pid else (None, fn)
-        if inc2 is None or t2.undecided:
-            ctx.error(f"solvepsd: accumulation when entry {k} of a drmlist tuple is None", node2)
+        pid = _psd_ids(t2, fn)[1]
+        inc2, _, node2 = _psd_increment(t2, pid, fn) if pid else (None, None, fn)
+        try:
+            if inc2 is None or t2.undecided:
+                raise Unsupported("accumulation")
+            _, _, want2 = expected(t2, present)
+        except Unsupported as e:
+            ctx.error(f"solvepsd: accumulation when entry {k} of a drmlist tuple is None ({e})", node2)
             continue
-        frf2 = sum((terms[j] for j in present[1:]), terms[present[0]])
-        want2 = F.fn("idx", F.sym("forcepsd"), fi) * F.fn("abs", frf2) ** 2
         ok = _eq(inc2, want2)
         ctx.check(ok, f"solvepsd: a None in position {k} of a drmlist entry drops exactly the term `{names[k]}`", node2, None if ok else {"increment": repr(inc2), "want": repr(want2)})
     # ---- rms^2 = trapezoidal area of the PSD over the frequency vector: evaluated on a generic 4-point grid (symbolic f0..f3, p0..p3)
     NF = 4
     fr = tuple(F.sym(f"f{i}") for i in range(NF))
     pp = tuple(F.sym(f"p{i}") for i in range(NF))
-
     t3 = _psd_run(ctx, fn, (0, 1, 2, 3), env={"freq": fr}, opts=_psd_opts(psd_id, pp))
-    r3 = t3.returns.get(fn.name) or []
-    rid = S.sym_name(r3[-1][0]) if r3 and isinstance(r3[-1], tuple) and len(r3[-1]) == 2 else None
+    rid = _psd_ids(t3, fn)[0]
     cs = t3.cells_of(rid) if rid else []
     if not cs or is_unknown(cs[-1][2]) or isinstance(cs[-1][2], tuple):
         ctx.error("solvepsd: rms formula", cs[-1][3] if cs else fn, repr(cs[-1][2]) if cs else None)
-    else:
-        val = need(cs[-1][2])
-        want = F.const(0)
-        for i in range(NF - 1):
-            want = want + (fr[i + 1] - fr[i]) * (pp[i] + pp[i + 1]) / 2
-        try:
-            ok = (val * val).equals(want)
-            detail = None if ok else {"rms^2": repr(val * val), "trapezoid": repr(want)}
-        except Unsupported as e:
-            ok, detail = False, str(e)
-        ctx.check(ok, "solvepsd: rms^2 = sum_k (f_{k+1} - f_k)(p_k + p_{k+1})/2 on a generic non-uniform grid (trapezoidal area)", cs[-1][3], detail)
+        return
+    val = need(cs[-1][2])
+    want = F.const(0)
+    for i in range(NF - 1):
+        want = want + (fr[i + 1] - fr[i]) * (pp[i] + pp[i + 1]) / 2
+    try:
+        ok = (val * val).equals(want)
+        detail = None if ok else {"rms^2": repr(val * val), "trapezoid": repr(want)}
+    except Unsupported as e:
+        ok, detail = False, str(e)
+    ctx.check(ok, "solvepsd: rms^2 = sum_k (f_{k+1} - f_k)(p_k + p_{k+1})/2 on a generic non-uniform grid (trapezoidal area)", cs[-1][3], detail)
+    # the area stored in rms[j] is that of psd[j]
+    last_store = max((c[4] for c in t3.cells_of(psd_id)), default=0)
+    loads = [n[1] for n in t3.notes if n[0] == "psd-load" and n[2] > last_store and not is_unknown(n[1])]
+    rix = cs[-1][1]
+    if loads and rix is not None and not is_unknown(rix):
+        ok = all(_eq(l, rix) for l in loads)
+        ctx.check(ok, "solvepsd: rms[j] is the area of psd[j] (same list position)", cs[-1][3], None if ok else {"rms index": repr(rix), "psd indices": [repr(l) for l in loads]})
 
 
 # ------------------------------------------------------------------------------------------------ R6
@@ -644,53 +879,51 @@ def r6_paired_advanced_indices(ctx):
 # ------------------------------------------------------------------------------------------------ R7
 def r7_every_force_counts(ctx):
     """solvepsd: the response PSD is the sum over ALL forces of PSD_i |H_i|^2, and H_i contains a direct term (drmf[:, i]) that does not pass
-    through the equations of motion.  Hence no force may be skipped on the grounds that it does not load the equations: inside the loop over the
-    forces the accumulation must be reached on every path whose skip condition is not implied by a vanishing force PSD itself."""
-    fn = ctx.src.func("pyyeti/ode/_utilities.py", "solvepsd")
-    accs = [n for n in ast.walk(fn) if isinstance(n, ast.AugAssign) and isinstance(n.op, ast.Add) and isinstance(n.target, ast.Subscript)
-            and dotted(n.target.value) == "psd"]
-    if not accs:
-        # accumulate spelled as psd[j] = psd[j] + ...
-        accs = [n for n in ast.walk(fn) if isinstance(n, ast.Assign) and isinstance(n.targets[0], ast.Subscript) and dotted(n.targets[0].value) == "psd"
-                and any(isinstance(x, ast.Subscript) and dotted(x.value) == "psd" for x in ast.walk(n.value))]
-    if len(accs) != 1:
-        raise AnchorError("solvepsd: the PSD accumulation")
-    acc = accs[0]
-    loops = [a for a in ancestors(acc) if isinstance(a, (ast.For, ast.While))]
-    if len(loops) < 2:
-        raise AnchorError("solvepsd: force loop around the recovery-matrix loop")
-    outer = loops[-1]
-    allowed = {"forcepsd", "i", "np", "abs"} | {a.arg for a in fn.args.args if a.arg in ("forcepsd",)}
-    it = outer.target.id if isinstance(outer.target, ast.Name) else None
+    through the equations of motion.  Hence no force may be skipped on the grounds that it does not load the equations.  The function is
+    evaluated once per combination of the tests it makes on its data; a combination in which the generic (force, recovery entry) iteration
+    does not reach the accumulation is admissible only if flipping one test on the force PSD alone (same decisions before it) reaches it -
+    i.e. the iteration was left because that PSD vanishes."""
+    fn = ctx.src.func(UTIL, "solvepsd")
+    paths = _psd_paths(ctx, fn)
+    info = []
+    for dec, tr in paths:
+        pid = _psd_ids(tr, fn)[1]
+        if pid is None:
+            ctx.error("solvepsd: returns (rms, psd)", fn)
+            return
+        info.append((dec, bool(tr.cells_of(pid)), tr))
+    n_acc = sum(1 for _, a, _ in info if a)
+    if not n_acc:
+        ctx.error("solvepsd: no evaluated path reaches the accumulation into the psd list", fn)
+        return
+
+    def psd_only(v, tr):
+        syms = _symbols(v) - tr.loop_syms - {"None", "pi", "I"}
+        return bool(syms) and syms <= {"forcepsd"}
+
     bad = []
-    n_paths = 0
-    # (a) tests that dominate the accumulation inside the force loop
-    for a in ancestors(acc):
-        if a is outer:
-            break
-        if isinstance(a, ast.If):
-            n_paths += 1
-            names = {x.id for x in ast.walk(a.test) if isinstance(x, ast.Name)}
-            # None-checks of the recovery matrices are the documented way of leaving a term out; they guard single terms, not the accumulation
-            if not names <= {"forcepsd", it, "np", "abs"}:
-                bad.append((a, "the accumulation is executed only under `%s`" % ast.unparse(a.test)))
-    # (b) early exits of an iteration before the accumulation is reached
-    for n in ast.walk(outer):
-        if isinstance(n, (ast.Continue, ast.Break)) and n.lineno < acc.lineno:
-            inner_loops = [a for a in ancestors(n) if isinstance(a, (ast.For, ast.While))]
-            if inner_loops and inner_loops[0] is not outer:
+    for dec, acc, tr in info:
+        if acc:
+            continue
+        excused = False
+        for k, (v, b) in enumerate(dec):
+            if not psd_only(v, tr):
                 continue
-            guard = next((a for a in ancestors(n) if isinstance(a, ast.If)), None)
-            n_paths += 1
-            names = {x.id for x in ast.walk(guard.test) if isinstance(x, ast.Name)} if guard is not None else set()
-            if guard is None or not names <= {"forcepsd", it, "np", "abs"}:
-                bad.append((n, "force `%s` is skipped under `%s`" % (it, ast.unparse(guard.test) if guard is not None else "no condition")))
-    for node, why in bad:
-        ctx.fail("solvepsd: every force contributes PSD_i |H_i|^2, including its direct term drmf[:, i]", node,
-                 why + ": a force whose t_frc column is zero still reaches the response through drmf", key=f"C02-R7|solvepsd|{why[:60]}")
+            pre = [(S.vkey(x), y) for x, y in dec[:k]]
+            for dec2, acc2, _ in info:
+                if acc2 and len(dec2) > k and [(S.vkey(x), y) for x, y in dec2[:k]] == pre and S.vkey(dec2[k][0]) == S.vkey(v) and dec2[k][1] != b:
+                    excused = True
+        if not excused:
+            culprit = [f"{v!r} is {b}" for v, b in dec if not psd_only(v, tr)]
+            bad.append((dec, culprit))
+    for dec, culprit in bad[:1]:
+        ctx.fail("solvepsd: every force contributes PSD_i |H_i|^2, including its direct term drmf[:, i]", fn,
+                 {"skipped when": culprit, "consequence": "a force whose t_frc column is zero still reaches the response through drmf"},
+                 key="C02-R7|solvepsd|a force is skipped for a reason other than a vanishing PSD")
     if not bad:
-        ctx.ok("solvepsd: every force contributes PSD_i |H_i|^2 - no iteration of the force loop can leave before the accumulation (except for a vanishing force PSD)", outer)
-    ctx.ok("solvepsd: accumulation `psd[j] += ...` sits in the recovery-matrix loop inside the force loop", acc, nontrivial=False)
+        ctx.ok(f"solvepsd: every force contributes PSD_i |H_i|^2 - on each of the {len(info)} evaluated combinations of tests the generic iteration reaches the "
+               "accumulation, except where the force PSD itself vanishes", fn)
+    ctx.ok(f"solvepsd: the accumulation into the psd list is reached on {n_acc} of {len(info)} evaluated paths", fn, nontrivial=False)
 
 
 # ------------------------------------------------------------------------------------------------ R8
@@ -826,9 +1059,9 @@ def r9_conjugate_set_guards(ctx):
 RULES = [
     ("C02-R6", r6_paired_advanced_indices, 2),
     ("C02-R1", r1_dynamic_stiffness, 12),
-    ("C02-R2", r2_derivative_relations, 60),
-    ("C02-R3", r3_option_gating, 50),
-    ("C02-R4", r4_partition_typing, 30),
+    ("C02-R2", r2_derivative_relations, 80),
+    ("C02-R3", r3_option_gating, 60),
+    ("C02-R4", r4_partition_typing, 100),
     ("C02-R5", r5_solvepsd, 8),
     ("C02-R7", r7_every_force_counts, 2),
     ("C02-R8", r8_structure_assumption, 2),
